@@ -23,6 +23,7 @@ mod replicas;
 mod c10;
 mod c11;
 mod c12;
+mod c12e;
 mod c13;
 mod c14;
 mod c15;
@@ -51,7 +52,7 @@ fn parts_for(id: &str) -> Option<(&'static str, Vec<Box<dyn DynPart>>, Vec<Strin
         "C09" => ("C09", c09::parts(), none),
         "C10" => ("C10", c10::parts(), none),
         "C11" => ("C11", c11::parts(), none),
-        "C12" => ("C12", c12::parts(), none),
+        "C12" => ("C12", { let mut p = c12::parts(); p.extend(c12e::parts()); p }, none),
         "C13" => ("C13", c13::parts_all(), none),
         "C14" => ("C14", c14::parts(), none),
         "C15" => ("C15", c15::parts_all(), none),
